@@ -108,12 +108,70 @@ def collect(ctx: Ctx, states):
     return vectors
 
 
+CAPS_PLAIN = bytes([0xB5, 4, 0x10, 0x02, 1, 0, 0x14, 0x02, 1, 1, 0x15, 0x02, 1, 1, 0x1F, 0x02, 1, 0])       # no custom fan speeds, cool-only modes, one swing axis, no humidity
+CAPS_PROPS = bytes([0xB5, 7, 0x10, 0x02, 1, 1, 0x09, 0x00, 1, 1, 0x0A, 0x00, 1, 1, 0x48, 0x00, 1, 1, 0xE3, 0x00, 1, 1, 0x42, 0x00, 1, 1, 0x18, 0x00, 1, 1])
+
+
+def collect_contexts(ctx: Ctx, states):
+    """The same requests in other situations of the client object: after get_capabilities() of an appliance that advertises little (no custom fan
+    speeds, few modes, ...), and with property-backed settings (swing angles, rate select, iECO, breeze) pending in the same apply() while the
+    appliance adds a state report to its answer to the property command."""
+    from msmart.device import AirConditioner as AC
+    vloop.install_clock()
+    rng = ctx.rng
+    vectors = []
+    for cname in ("caps_plain", "props_pending"):
+        loop = vloop.new_loop()
+        net = vloop.Net(loop)
+
+        class Reporting(acdev.ACModel):
+            def handle(self, f):
+                out = super().handle(f)
+                if len(f) > 10 and f[10] == 0xB0 and f[9] == 2 and out:
+                    out = out + [self.state_frame(ftype=5)]          # a state report behind the acknowledgement of the property command
+                return out
+        ac = Reporting(caps_pages=[CAPS_PLAIN if cname == "caps_plain" else CAPS_PROPS],
+                       props={} if cname == "caps_plain" else {0x09: b"\x00", 0x0A: b"\x00", 0x48: b"\x64", 0xE3: b"\x00\x00", 0x42: b"\x01", 0x18: b"\x00"})
+        dev = landev.LanDevice(loop, net, ac, version=2)
+        d = AC(ip="10.0.0.1", port=6444, device_id=rng.getrandbits(48))
+
+        async def go():
+            await d.get_capabilities()
+            for s in states:
+                pending = []
+                if cname == "props_pending":
+                    for name, dom in rng.sample([("vertical_swing_angle", list(AC.SwingAngle)), ("horizontal_swing_angle", list(AC.SwingAngle)),
+                                                 ("rate_select", list(AC.RateSelect)), ("ieco", [True, False]), ("breeze_away", [True, False]),
+                                                 ("breezeless", [True, False])], rng.randint(1, 3)):
+                        v = rng.choice(dom)
+                        setattr(d, name, v)
+                        pending.append(name)
+                apply_state(AC, d, s, rng)
+                n0 = len(dev.rx)
+                ac.log.clear()
+                try:
+                    await d.apply()
+                    exc = None
+                except Exception as e:  # noqa: BLE001 - the code under test may raise anything
+                    exc = type(e).__name__
+                frames = [r["frame"] for r in dev.rx[n0:] if r.get("ok") and r["frame"][10:11] == b"\x40"]
+                devst = [i for k, i in ac.log if k == "set_state"]
+                vectors.append({"req": s, "frame": B(frames[0]) if frames else [], "devstate": devst[0] if devst else {}, "exc": exc or "none", "n40": len(frames),
+                                "context": cname, "pending": pending})
+        vloop.run(loop, go())
+    return vectors
+
+
 def run(ctx: Ctx) -> int:
     ctx.mc("MC_C10", "INIT Init\nNEXT Next\nINVARIANT RoundTrip\nINVARIANT Shape\nINVARIANT DeviceAccepts\n")
     states = cases(ctx)
     vectors = collect(ctx, states)
+    sub = [dict(st) for st in ctx.rng.sample(states, min(len(states), ctx.pick(400, 6000)))]
+    for st in sub[:len(sub) // 2]:
+        st["beep"] = True
+    vectors += collect_contexts(ctx, sub)
     for v in vectors:
-        ctx.count_distinct(tuple(sorted(v["req"].items())))
+        ctx.count_distinct((v.get("context", "fresh"),) + tuple(sorted(v["req"].items())))
     tlc_in = []
     for v in vectors:
         if v["exc"] != "none" or v["n40"] != 1:
@@ -157,7 +215,9 @@ def run(ctx: Ctx) -> int:
     return ctx.finish(
         rule="each settable field takes every value of its domain (others seeded-random), all 62 setpoints x 6 modes, "
              "all flag combinations sharing a byte, all value pairs of small fields, plus seeded random states; "
-             "distinct = distinct requested states; every one goes through AirConditioner.apply() to a simulated V2 device "
+"a sample of them again after get_capabilities() of an appliance advertising little (no custom fan speeds, few modes) and with "
+             "property-backed settings pending in the same apply() while the appliance reports its state behind the property acknowledgement; "
+             "distinct = distinct (situation, requested state); every one goes through AirConditioner.apply() to a simulated V2 device "
              "and TLC judges the received frame with VendorDecode40/Vendor40Shape/VendorNeutral",
         assumptions=["setpoint domain 13.0-43.5 C with alternate code = T-12 (DESIGN 6.1 F8)",
                      "follow-me bit position taken from 0xC0/0x40 symmetry (absent from the pinned Lua)"])
